@@ -1,6 +1,6 @@
 (** The history machine: a few region slots of one catalogue entry driven by untyped operations,
     producing the observations the correspondence check compares with the implementation's. *)
-From FC Require Import Base.Res Index.IC Region.Region Region.Items Resource.Res Model.Wire.
+From FC Require Import Base.Res Index.IC Region.Region Region.Items Region.Compare Resource.Res Model.Wire.
 Set Implicit Arguments.
 
 Inductive op :=
@@ -18,7 +18,8 @@ Inductive op :=
 | OReserveRegions (k : nat) (ks : list nat)
 | OHeap (k : nat)                              (* heap_size pairs; the model does not predict them here *)
 | OSerde (k : nat)
-| OAllocs (k : nat).                           (* allocator calls: the implementation's only *)                            (* slot k := deserialize(serialize(slot k)) *)
+| OAllocs (k : nat)
+| OCmp (k i : nat) (a : bool) (l j : nat) (b : bool). (* item i of slot k vs item j of slot l; a/b: owned-borrowed *)                           (* allocator calls: the implementation's only *)                            (* slot k := deserialize(serialize(slot k)) *)
 
 Inductive obs :=
 | BIdx (i : uval) | BVal (v : uval) | BPanic | BIll | BNone.
@@ -106,6 +107,20 @@ Section Machine.
     | OHeap k => ([BVal (UL (map UN (r_used (m_res M) (s_st (get_slot sl k)))))], Some sl)
     | OSerde k => ([BNone], Some sl)
     | OAllocs k => ([BNone], Some sl)
+    | OCmp k i a l j b =>
+        let fetch (x : slot) (n : nat) (owned : bool) : option (res (item I)) :=
+          match nth_error (s_log x) n with
+          | None => None
+          | Some ix => Some (let* it := index I (s_st x) ix in
+                             if owned then let* v := own I it in Ok (borrow I v) else Ok it)
+          end in
+        match m_ord M, fetch (get_slot sl k) i a, fetch (get_slot sl l) j b with
+        | Some C, Some rx, Some ry =>
+            let ord_u (c : comparison) := UN (match c with Lt => 0 | Eq => 1 | Gt => 2 end)%N in
+            ([obs_res (let* x := rx in let* y := ry in let* c := icmp C x y in
+                       Ok (UL [ubool (match c with Eq => true | _ => false end); USome (ord_u c); ord_u c]))], Some sl)
+        | _, _, _ => ([BIll], None)
+        end
     end.
 
   Fixpoint run (sl : list slot) (ops : list op) : list (list obs) :=
